@@ -1019,7 +1019,12 @@ class MarkovProduct(Funsor, metaclass=MarkovProductMeta):
     def eager_subs(self, subs):
         assert isinstance(subs, tuple)
         # Eagerly rename variables.
-        rename = {k: v.name for k, v in subs if isinstance(v, Variable)}
+        # Renaming onto a name that is already an input would merge the two.
+        rename = {
+            k: v.name
+            for k, v in subs
+            if isinstance(v, Variable) and v.name not in self.inputs
+        }
         if not rename:
             return None
         step_names = frozenset(
@@ -1028,7 +1033,7 @@ class MarkovProduct(Funsor, metaclass=MarkovProductMeta):
         result = MarkovProduct(
             self.sum_op, self.prod_op, self.trans, self.time, self.step, step_names
         )
-        lazy = tuple((k, v) for k, v in subs if not isinstance(v, Variable))
+        lazy = tuple((k, v) for k, v in subs if k not in rename)
         if lazy:
             result = Subs(result, lazy)
         return result
